@@ -12,6 +12,7 @@ import Anonymongo.Props.Src.Line
 import Anonymongo.Props.C04
 import Anonymongo.Props.C01
 import Anonymongo.Model.JsonText
+import Anonymongo.Lemmas.ParseValid
 import Anonymongo.Model.Plan
 namespace Anonymongo.Src
 open Anonymongo Anonymongo.Go
@@ -56,6 +57,23 @@ theorem C01_remote_src (plan : Str → Str → Str) (cal : Callees g plan) (hips
     rw [mapKey_eq_mapVals, lookup_mapVals, hattr]
     simp [redactAttr]
   · exact C01_remote Generated.tables (absCfg g) hips g.eagerRedactionPaths plan _ attr s hs
+
+/-- **C07 at source level — no line content makes the translated `RedactMongoLog` panic**: with the model's parser as the reader
+    (`Model/JsonText.parseObj`, compared with `UnmarshalOrdered` byte for byte by the `text` correspondence), for EVERY line and every
+    setting of the options the translated function returns: the reader's error and nothing else for a line the reader rejects, an
+    entry and no error for a line it accepts (what it accepts never has duplicate sibling keys: `parseObj_printable`) -/
+theorem C07_src (plan : Str → Str → Str) (cal : Callees g plan) (hreader : g.UnmarshalOrdered = parseObj) (line : Str) :
+    (parseObj (utf8 line) = none ∧ RedactMongoLog g Generated.tables fuel line = some ([], true)) ∨
+    (∃ E0, parseObj (utf8 line) = some E0 ∧
+      (2 * depthKVs E0 < fuel → ∃ out, RedactMongoLog g Generated.tables fuel line = some (out, false))) := by
+  cases hp : parseObj (utf8 line) with
+  | none => exact .inl ⟨rfl, RedactMongoLog_err g Generated.tables fuel line (by rw [hreader]; exact hp)⟩
+  | some E0 =>
+    refine .inr ⟨E0, rfl, fun hf => ?_⟩
+    have hpr := parseObj_printable _ E0 hp
+    rw [printable_iff] at hpr
+    simp only [Bool.and_eq_true] at hpr
+    exact RedactMongoLog_returns g fuel plan cal line E0 (by rw [hreader]; exact hp) hpr.2 hf
 
 /-! the hypotheses are satisfiable: a state of the option variables whose untranslated callees are the model's functions
     (the JSON reader is the model's parser), and a line on which every hypothesis of the theorems above holds -/
